@@ -310,6 +310,7 @@ class C14(CheckBase):
             ck.serial = p.GetTokenInfo(sm["free"])["serial"]
             ctx.count("init_free_ok")
         elif k in ("restart", "util-init-free", "util-delete"):
+            serial_now = p.GetTokenInfo(m.slot[t]).get("serial") if k == "util-delete" else None
             W.ok(p.Finalize(), "final")
             if k == "util-init-free":
                 rc, outp = self.run_util(ctx, ["--init-token", "--free", "--label", "C", "--so-pin", SO["C"][0].decode(), "--pin", USER["C"][0].decode()])
@@ -319,6 +320,16 @@ class C14(CheckBase):
                 ck.exists, ck.so, ck.user, ck.objs, ck.restart_slot, ck.serial = True, 0, 0, {}, None, None
                 ctx.count("util_init_ok")
             elif k == "util-delete":
+                # a token is named by its complete label or serial: a proper prefix of the serial (and a label that no token has) must delete nothing
+                root = os.path.join(ctx.sh.pwd(), "tokens")
+                before = sorted(os.listdir(root))
+                for what, args in (("serial-prefix", ["--serial", (serial_now or "")[:8]]), ("unknown-label", ["--token", t + "x"])):
+                    if what == "serial-prefix" and len(serial_now or "") < 16:
+                        continue
+                    rc, outp = self.run_util(ctx, ["--delete-token"] + args)
+                    ctx.count("util_delete_refusals_probed")
+                    if rc == 0 or sorted(os.listdir(root)) != before:
+                        raise Violation("C14|util-delete|token-deleted-by-%s" % what, {"rc": rc, "output": outp, "token": t, "argument": args})
                 rc, outp = self.run_util(ctx, ["--delete-token", "--token", t])
                 if rc != 0:
                     raise Violation("C14|util-delete|softhsm2-util-failed", {"rc": rc, "output": outp, "token": t})
